@@ -2,7 +2,7 @@
   L5 — the specification state machine behind `DLISFile` / `LogicalFile.add_*`
   (`file/file.py`, `file/eflr_sets_dict.py`, `core/eflr/eflr_item.py`): set registries of the physical file
   and of each logical file, identity triples (origin, copy number, name), origin numbering and back-filling,
-  the record order of `DLISFile.generator`, and what a rejected call leaves behind.
+  the record order of `DLISFile.generator`, and what a rejected call leaves behind (nothing).
 
   Set types are numbers (`kind`), kind 0 = ORIGIN.  Attribute values do not matter at this layer: a call is
   `ok`, rejected before the item registered itself (`rejectEarly`: bad name / parent) or after
@@ -69,14 +69,17 @@ def copyNumber (w : World) (k : Key) (name : PStr) : Nat := (itemsOfKey w k).cou
 
 def appendItem (w : World) (it : Item) : World := { w with items := w.items ++ [it] }
 
-/-- `LogicalFile.add_<kind>` for every kind except ORIGIN -/
+/-- `LogicalFile.add_<kind>` for every kind except ORIGIN: the set is taken from (or made in) the physical file's
+registry, the object is made — with `origin_reference or self.default_origin_reference` — and only then is the set
+registered with the logical file; a call that is rejected (before or after the object registered itself with its
+set: it is unregistered again) leaves nothing behind -/
 def addItem (w : World) (lf kind : Nat) (sn : Option PStr) (name : PStr) (oref : Option Int) (out : Outcome) : World :=
-  let w1 := touchKey w lf (kind, sn)
   match out with
   | .ok =>
+    let w1 := touchKey w lf (kind, sn)
     appendItem w1 { lf := lf, kind := kind, setName := sn, name := name,
-                    origin := pickOrigin oref (defaultOrigin w1 lf), copy := copyNumber w (kind, sn) name }
-  | _ => w1       -- the set exists (empty sets are never written); a registered item is unregistered again
+                    origin := pickOrigin oref (defaultOrigin w lf), copy := copyNumber w (kind, sn) name }
+  | _ => w
 
 def nextFree (refs : List Int) : Nat → Int → Int
   | 0, n => n
@@ -98,19 +101,20 @@ def backfill (w : World) (lf : Nat) (r : Int) : World :=
               if i.origin.isNone ∧ i.key ∈ lfKeys w lf then { i with origin := some r } else i),
            headerOrigin := w.headerOrigin.set lf (some r) }
 
-/-- `LogicalFile.add_origin` -/
+/-- `LogicalFile.add_origin`: the reference is chosen among the origins the logical file has so far, the object is
+made, then its set is registered with the logical file -/
 def addOrigin (w : World) (lf : Nat) (sn : Option PStr) (name : PStr) (oref : Option Int) (out : Outcome) :
     World × Bool :=
-  let w1 := touchKey w lf (0, sn)
-  match newOriginRef (originsOfLf w1 lf) oref with
-  | .error _ => (w1, false)
+  match newOriginRef (originsOfLf w lf) oref with
+  | .error _ => (w, false)
   | .ok r =>
     match out with
     | .ok =>
+      let w1 := touchKey w lf (0, sn)
       let w2 := appendItem w1 { lf := lf, kind := 0, setName := sn, name := name, origin := some r,
                                 copy := copyNumber w (0, sn) name }
       (if (originsOfLf w2 lf).length = 1 then backfill w2 lf r else w2, true)
-    | _ => (w1, false)
+    | _ => (w, false)
 
 inductive Op
   | item (lf kind : Nat) (sn : Option PStr) (name : PStr) (oref : Option Int) (out : Outcome)
